@@ -766,6 +766,11 @@ def classify(op: str, paths: list[tuple[tuple, Any]]) -> Verdict:
         return Verdict("ABSENT", "", "every path declines")
     terms = {t for _, t in main}
     if len(terms) != 1:
+        # several guarded result terms: evaluate the path whose operand-only guards hold on each boundary sample and compare
+        # with the oracle table.  A disagreement is a deviation with a witness; agreement on the sample proves nothing.
+        w = _paths_witness(op, main)
+        if w is not None:
+            return Verdict("DEVIATES", "witness", f"{show(w[4])[:120]}: L={w[0]}, R={w[1]} gives {w[3]} where run time gives {w[2]}")
         return Verdict("UNRECOGNISED", "", "several distinct result terms: " + " | ".join(sorted(show(t) for t in terms)))
     t = next(iter(terms))
     if t == NONE:
@@ -778,6 +783,28 @@ def classify(op: str, paths: list[tuple[tuple, Any]]) -> Verdict:
         if w is not None:
             return Verdict("DEVIATES", "witness", f"{show(t)[:120]}: L={w[0]}, R={w[1]} gives {w[3]} where run time gives {w[2]}")
     return v
+
+
+def _paths_witness(op: str, paths: list[tuple[tuple, Any]]):
+    """First boundary sample on which the guarded path that applies returns something else than the oracle table."""
+    for l in _SAMPLE:
+        for r in _SAMPLE:
+            want = _oracle(op, l, r)
+            if want is None or (op in ("/", "%") and r == 0):
+                continue
+            for g, t in paths:
+                try:
+                    if not all(bool(_ev(x, l, r)) == pol for x, pol in g if _mentions_only_operands(x)):
+                        continue
+                    got = _ev(t, l, r)
+                except Exception:
+                    break  # a guard or term the evaluator does not know: no statement about this sample
+                if isinstance(got, bool):
+                    got = int(got)
+                if isinstance(got, int) and got != want:
+                    return (l, r, want, got, t)
+                break  # first applicable path is the one taken
+    return None
 
 
 def _term_witness(op: str, t: Any):
